@@ -181,12 +181,13 @@ pub mod easy {
             Ok(())
         }
         pub fn timeout(&mut self, d: Duration) -> Result<(), Error> {
-            // libcurl: 0 means "no timeout".
-            self.opts.timeout = if d.is_zero() { None } else { Some(d) };
+            // The curl crate passes whole milliseconds (CURLOPT_TIMEOUT_MS), and to
+            // libcurl 0 means "no timeout": anything below 1 ms is no timeout at all.
+            self.opts.timeout = if d.as_millis() == 0 { None } else { Some(d) };
             Ok(())
         }
         pub fn connect_timeout(&mut self, d: Duration) -> Result<(), Error> {
-            self.opts.connect_timeout = if d.is_zero() { None } else { Some(d) };
+            self.opts.connect_timeout = if d.as_millis() == 0 { None } else { Some(d) };
             Ok(())
         }
         pub fn low_speed_limit(&mut self, _l: u32) -> Result<(), Error> {
